@@ -194,6 +194,45 @@ Proof.
     fold (data_of g) in Hlt. lia.
 Qed.
 
+(* ---- the packer driven by its own should_save is one of the oracle runs ------------------- *)
+Definition set_save (b : bool) (o : pop) : pop := mkop (op_data o) (op_id o) (op_ulen o) b.
+Definition op_key (o : pop) := (op_data o, op_id o, op_ulen o).
+
+Lemma add_raw_set_save tpe st o b : add_raw tpe st (set_save b o) = add_raw tpe st o.
+Proof. reflexivity. Qed.
+
+Lemma run_auto_is_run_go enc tpe limit ops : forall st,
+  exists ops', map op_key ops' = map op_key ops /\
+               run_auto enc tpe limit st ops = run_go enc tpe st ops'.
+Proof.
+  induction ops as [|o r IH]; intro st.
+  - exists []. split; reflexivity.
+  - cbn [run_auto]. destruct (add_raw tpe st o) as [| |st1] eqn:A.
+    + exists (o :: r). split; [reflexivity|]. cbn [run_go]. rewrite A. reflexivity.
+    + exists (o :: r). split; [reflexivity|]. cbn [run_go]. rewrite A. reflexivity.
+    + cbn [bind]. destruct (should_save_b limit (op_save o) st1) eqn:B.
+      * destruct (save enc st1) as [| |[pk st2]] eqn:S.
+        -- exists (set_save true o :: r). split; [reflexivity|].
+           cbn [run_go]. rewrite add_raw_set_save, A. cbn [bind op_save set_save]. rewrite S. reflexivity.
+        -- exists (set_save true o :: r). split; [reflexivity|].
+           cbn [run_go]. rewrite add_raw_set_save, A. cbn [bind op_save set_save]. rewrite S. reflexivity.
+        -- destruct (IH st2) as (r' & Hk & Hr). exists (set_save true o :: r').
+           split; [cbn [map]; rewrite Hk; reflexivity|].
+           cbn [run_go]. rewrite add_raw_set_save, A. cbn [bind op_save set_save]. rewrite S. cbn [bind]. rewrite Hr. reflexivity.
+      * destruct (IH st1) as (r' & Hk & Hr). exists (set_save false o :: r').
+        split; [cbn [map]; rewrite Hk; reflexivity|].
+        cbn [run_go]. rewrite add_raw_set_save, A. cbn [bind op_save set_save]. exact Hr.
+Qed.
+
+Lemma wf_op_key a : forall b, map op_key a = map op_key b -> Forall wf_op b -> Forall wf_op a.
+Proof.
+  induction a as [|x a IH]; intros [|y b] H Hb; try discriminate; constructor.
+  - inversion Hb as [|? ? Hy Hb']; subst. cbn [map] in H. unfold op_key in H.
+    assert (E1 : op_id x = op_id y) by congruence. assert (E2 : op_ulen x = op_ulen y) by congruence.
+    unfold wf_op. rewrite E1, E2. exact Hy.
+  - inversion Hb as [|? ? Hy Hb']; subst. cbn [map] in H. inversion H. eapply IH; eassumption.
+Qed.
+
 Section WithEnc.
 Variable enc : bytes -> bytes.
 Hypothesis enc_len : forall x, length (enc x) = (length x + 32)%nat.
@@ -245,6 +284,17 @@ Proof.
   apply group_wellformed; try assumption.
   - rewrite Forall_forall. intros o Ho. rewrite Forall_forall in Hwf. apply Hwf. apply H3. assumption.
   - rewrite Forall_forall in HF. apply HF. apply in_map. assumption.
+Qed.
+
+Lemma auto_packer_wellformed_lemma tpe limit ops packs :
+  Forall wf_op ops -> packer_run_auto enc tpe limit ops = Ok packs ->
+  Forall (pack_wellformed enc tpe) packs /\
+  Forall (fun pk => N.of_nat (length (fst pk)) < U32) packs.
+Proof.
+  intros Hwf Hrun. unfold packer_run_auto in Hrun.
+  destruct (run_auto_is_run_go enc tpe limit ops st0) as (ops' & Hk & Hr). rewrite Hr in Hrun.
+  destruct (packer_pack_wellformed_lemma tpe ops' packs (wf_op_key _ _ Hk Hwf) Hrun) as (_ & H1 & H2).
+  split; assumption.
 Qed.
 
 End WithEnc.
